@@ -167,3 +167,13 @@ func TestD4OptsEndRepetitionDiverges(t *testing.T) {
 		app.Spec = "[-- ]..."
 	}, []string{"x"})
 }
+
+// D8: a tab after the end-of-options marker of a spec is a blank like any other (C08)
+func TestD8DoubleDashTab(t *testing.T) {
+	for _, spec := range []string{"-- X", "--\tX", "[-f]\t--\tX"} {
+		ran, err, p := runApp(t, func(app *Cli) { app.Spec = spec; app.BoolOpt("f", false, ""); app.StringArg("X", "", "") }, []string{"--", "-f"})
+		if p != nil || err != nil || !ran {
+			t.Errorf("spec %q: panic=%v err=%v ran=%v (a tab is a blank everywhere else in the spec grammar)", spec, p, err, ran)
+		}
+	}
+}
